@@ -11,8 +11,10 @@ def run(ctx):
     states = 0
     recs = []
     fams = {}
-    for fam in ("mutant", "either", "svc", "single"):
+    for fam in ("mutant", "lexical", "either", "svc", "single"):
         r, rs = langfam.records(ctx, fam)
+        if fam == "lexical" and ctx.quick():
+            rs = rs[ctx.seed % 3::3]
         states += r.distinct
         fams[fam] = len(rs)
         recs += rs
@@ -75,7 +77,9 @@ def run(ctx):
         "explanation": "SchemaSem.tla: Violations(world) over packages/files/definitions (duplicate definitions, fields, tags, enum names and "
                        "numbers, struct fields, methods, imports, options; zero and out-of-range tags; enum values above int32; missing zero "
                        "value; unknown and service-typed field/element/struct types; non-value struct fields; self-containing structs "
-                       "(direct and mutual); non-message channel types; malformed method signatures; circular and missing imports). Invariant "
+                       "(direct and mutual); non-message channel types; malformed method signatures; circular and missing imports). Family lexical: "
+                       "text that is not a token (open comment, open string, bad escape, bad octal, float, char, raw string, stray character, "
+                       "overflowing integer) inserted at every token boundary of the base schema: the compiler must not exit successfully. Invariant "
                        "VerdictConsistent: every mutant breaks exactly the rule of its operator at the named element, every generated schema "
                        "of the accepting families breaks none. Each record is rendered from its token sequence, compiled by the real "
                        "`spec generate`, and everything generated is compiled by `go build`.",
